@@ -26,6 +26,9 @@ type Violation struct {
 	Observed  map[string]string `json:"observations_before_failure,omitempty"`
 	Decisions []string          `json:"decisions"`
 	Harness   string            `json:"harness"`
+	// MapOrder: the path made an environment choice of a Go map iteration
+	// order; natively the order is random per run, so the replay is repeated.
+	MapOrder bool `json:"map_order_choice,omitempty"`
 }
 
 func (v *Violation) Signature() string {
@@ -104,6 +107,7 @@ type Exec struct {
 	unknownAsSat    bool
 	mapOrder        bool // explore map iteration orders as environment choices
 	mapOrderMax     int
+	mapOrderUsed    bool
 	floatStrict     bool
 	uniq            int
 	wantWitness     bool
@@ -415,7 +419,7 @@ func (x *Exec) violation(kind, label, site, detail string, extra ...*sym.Term) {
 	}
 	x.res.Violations = append(x.res.Violations, &Violation{
 		Kind: kind, Label: label, Site: site, Detail: detail, Model: model, Choices: ch, Observed: obs,
-		Decisions: append([]string(nil), x.trace...), Harness: x.Harness,
+		Decisions: append([]string(nil), x.trace...), Harness: x.Harness, MapOrder: x.mapOrderUsed,
 	})
 }
 
